@@ -85,6 +85,14 @@ func atomsText(as []string) string {
 	return b.String()
 }
 
+// abstractInstant: the two instants of PongoFilters.tla
+func abstractInstant(i int) time.Time {
+	if i == 1 {
+		return time.Date(2006, 1, 2, 15, 4, 5, 0, time.UTC)
+	}
+	return time.Date(1999, 12, 31, 23, 59, 58, 0, time.UTC)
+}
+
 type safeString string // a value Go code marked safe (AsSafeValue)
 
 // concretise builds the Go value of an abstract value (for contexts and for ApplyFilter arguments).
@@ -138,6 +146,10 @@ func concretise(v AV) interface{} {
 		return st
 	case "stringer":
 		return vStringer{atomsText(v.S)}
+	case "fix":
+		return float64(v.N) / 1000
+	case "time":
+		return abstractInstant(v.N)
 	case "ap":
 		r, err := pongo2.ApplyFilter(v.S[0], toValue(concretise(v.L[0])), toValue(concretise(v.L[1])))
 		if err != nil {
@@ -165,6 +177,8 @@ func written(v AV, esc int) string {
 		}
 	case "int":
 		s = strconv.Itoa(v.N)
+	case "fix":
+		s = strconv.FormatFloat(float64(v.N)/1000, 'f', 6, 64)
 	case "str", "stringer":
 		s = atomsText(v.S)
 		isStr = true
